@@ -126,6 +126,16 @@ func init() {
 	add(word("$v$w", wPE("v"), wPE("w")))
 	add(word(`a"d"`, wLit("a"), wDQ(wLit("d"))))
 	add(word("a$(c)", wLit("a"), wCS(true, simpleCmd("c"))))
+	// multi-byte and multi-line words (positions must count characters)
+	add(word("'é'", wSQ("é")))
+	add(word(`"é$v"`, wDQ(wLit("é"), wPE("v"))))
+	add(word("${v:-é}", wPEB("v", ":-", ast.Word{wLit("é")})))
+	add(word("$(é)", wCS(true, simpleCmd("é"))))
+	add(word("x=é", wLit("x=é")))
+	add(word("é$v", wLit("é"), wPE("v")))
+	add(word("'q\né'", wSQ("q\né")))
+	add(word("\"d\né\"", wDQ(wLit("d\né"))))
+	add(word("'é\nq'b", wSQ("é\nq"), wLit("b")))
 	add(word("x=$v", wLit("x="), wPE("v")))
 	add(word("x='q'", wLit("x="), wSQ("q")))
 	for _, o := range []string{";", "&", "|", "&&", "||", ";;", "(", ")", "<", ">", ">>", ">|", "<&", ">&", "<>"} {
